@@ -340,16 +340,16 @@ class SMUserList(UserList, ABC):
 
     # flag these binary operators as being not supported
     def __lt__(self, other):
-        return NotImplementedError
+        return NotImplemented
 
     def __le__(self, other):
-        return NotImplementedError
+        return NotImplemented
 
     def __gt__(self, other):
-        return NotImplementedError
+        return NotImplemented
 
     def __ge__(self, other):
-        return NotImplementedError
+        return NotImplemented
 
     def append(self, item):
         """
